@@ -316,7 +316,14 @@ inline void Exec::data_save(int i) {
         c.note("vnadata_save(d%d, $TMP/%s)", i, fname);
         Call k = mk("vnadata_save", XP_EITHER, C_USAGE | C_SYSTEM, "save-options", O_DATA, i); k.late = true;
         int rc = icall(k, [&] { return vnadata_save(v, path.c_str()); });
-        if (rc == 0) did_saveload = true;
+        if (rc == 0) {      // read the file back into a pool object (by name: the extension selects the parser)
+            did_saveload = true;
+            int j = (int)c.draw(datas.size());
+            c.note("vnadata_load(d%d, $TMP/%s)", j, fname);
+            Call kl = mk("vnadata_load", XP_EITHER, C_SYNTAX | C_VERSION | C_USAGE | C_SYSTEM, "own-output", O_DATA, j); kl.late = true;
+            vnadata_t *w = datas[j]->p;
+            icall(kl, [&] { return vnadata_load(w, path.c_str()); });
+        }
         unlink(path.c_str());
         break;
     }
